@@ -7,7 +7,7 @@
 //! are keyed by cause: the production in which the two derivations part and the class of
 //! the token found there — not by text.
 
-use crate::corpus::{self, Base};
+use crate::corpus::{self, Base, Tight, TightScope, TightStats};
 use crate::real::{self, Docs};
 use crate::reference;
 use mc_core::{catch, panic_site, Ctx, Tier};
@@ -142,6 +142,7 @@ pub struct Stats {
     pub accepted_hashes: Vec<u64>,
     /// fingerprint -> (what, first text, count)
     pub violations: BTreeMap<String, (String, String, usize)>,
+    pub tight: TightStats,
 }
 
 impl Stats {
@@ -174,6 +175,7 @@ impl Stats {
         }
     }
     pub fn merge(&mut self, o: Stats) {
+        self.tight.merge(&o.tight);
         self.evaluations += o.evaluations;
         self.both_accept += o.both_accept;
         self.both_reject += o.both_reject;
@@ -215,22 +217,56 @@ pub fn bounds(tier: Tier) -> (usize, usize, usize, Option<usize>) {
 /// Depth up to which the thorough tier also takes every two-gap layout deviation.
 pub const TWO_GAP_DEPTH: usize = 3;
 
-/// The family of one base document: itself, its mutants and its layout deviations.
-pub fn family(b: &Base, subs: &[String], two_gap: bool, mut f: impl FnMut(&'static str, String)) {
+/// The family of one base document: itself, its mutants (each in the one-space and, as far as
+/// `scope` says, in the tight rendering) and its layout deviations.
+pub fn family(
+    b: &Base,
+    subs: &[String],
+    two_gap: bool,
+    scope: TightScope,
+    tight: &mut Tight,
+    mut f: impl FnMut(&'static str, String),
+) {
     f("base", corpus::join(&b.toks));
-    corpus::for_each_mutant(&b.toks, subs, |k, t| f(k, t));
+    let pieces: Vec<&str> = b.toks.iter().map(|s| s.as_str()).collect();
+    if let Some(t) = tight.render(&pieces) {
+        f("base-tight", t);
+    }
+    corpus::for_each_mutant(&b.toks, subs, scope, tight, |k, t| f(k, t));
     // token ranges of the productions of the reference derivation (token i of the joined
     // text is token i of the list: every default terminal is one token)
     if let Ok(t) = reference::parse(&corpus::join(&b.toks)) {
         if t.toks.len() == b.toks.len() {
             let ranges: Vec<(usize, usize)> = t.nodes.iter().map(|n| (n.1, n.2)).collect();
-            corpus::for_each_subtree_deletion(&b.toks, &ranges, |t| f("delete-subtree", t));
+            corpus::for_each_subtree_deletion(&b.toks, &ranges, scope, tight, |k, t| f(k, t));
         }
     }
     corpus::for_each_layout(&b.toks, &corpus::SEPARATORS, |t| f("layout", t));
     if two_gap {
         corpus::for_each_layout2(&b.toks, &corpus::SEPARATORS, |t| f("layout-two-gaps", t));
     }
+}
+
+/// Which texts get the tight rendering in a tier, and the sentence of the evidence rule saying so.
+pub fn tight_scope<'a>(tier: Tier, _subs_small: &'a [String]) -> TightScope<'a> {
+    match tier {
+        Tier::Quick | Tier::Thorough => TightScope::All,
+    }
+}
+
+pub fn tight_rule(scope: TightScope) -> String {
+    let which = match scope {
+        TightScope::All => "every base document, every single-token mutant (deletion, duplication, swap, substitution with the same substitute sets) and every subtree deletion".to_string(),
+        TightScope::Reduced(set) => format!(
+            "(this tier, for time; the thorough tier takes all mutants) every base document and every substitution mutant whose substitute is one of the reduced set of {}",
+            set.len()
+        ),
+    };
+    format!(
+        "tight layout: {which} is also rendered with every separator dropped that the reference tokenizer does not need \
+         (greedy left to right; a separator stays where the concatenation would tokenize differently, e.g. `u8 u8`, `a : b`; \
+         the tight text tokenizes per the reference to exactly the token sequence of the one-space text, checked on every text)"
+    )
 }
 
 /// The texts of the documents that also get every two-gap layout deviation (thorough tier).
@@ -274,16 +310,19 @@ pub fn run(args: &[String]) -> ! {
     let work: Vec<(&Base, &[String])> =
         shallow.docs.iter().map(|b| (b, &subs_full[..])).chain(deep_only.iter().map(|b| (*b, &subs_small[..]))).collect();
     let two_gap = two_gap_set(tier, reps);
+    let scope = tight_scope(tier, &subs_small);
     let parts: Vec<Stats> = work
         .par_chunks(16)
         .map(|chunk| {
             let mut st = Stats::default();
+            let mut tight = Tight::default();
             for (b, subs) in chunk {
-                family(b, subs, two_gap.contains(&corpus::join(&b.toks)), |kind, text| {
+                family(b, subs, two_gap.contains(&corpus::join(&b.toks)), scope, &mut tight, |kind, text| {
                     let j = judge(&text);
                     st.record(kind, &text, &j);
                 });
             }
+            st.tight = tight.stats;
             st
         })
         .collect();
@@ -325,7 +364,7 @@ pub fn run(args: &[String]) -> ! {
         st.record("degenerate", text, &j);
     }
 
-    let mut samples = mc_core::Samples::new(4);
+    let mut samples = mc_core::Samples::new(5);
     for b in [shallow.docs.first(), shallow.docs.get(shallow.docs.len() / 2), deep_only.last().copied()].into_iter().flatten() {
         let t = corpus::join(&b.toks);
         let j = judge(&t);
@@ -333,11 +372,18 @@ pub fn run(args: &[String]) -> ! {
     }
     if let Some(b) = shallow.docs.get(shallow.docs.len() / 3) {
         let mut first = None;
-        corpus::for_each_mutant(&b.toks, &subs_full, |k, t| {
+        let mut first_tight = None;
+        corpus::for_each_mutant(&b.toks, &subs_full, TightScope::All, &mut Tight::default(), |k, t| {
             if first.is_none() && k == "swap" {
                 first = Some(t);
+            } else if first_tight.is_none() && k == "substitute-tight" {
+                first_tight = Some(t);
             }
         });
+        if let Some(t) = first_tight {
+            let j = judge(&t);
+            samples.offer(|| json!({"kind": "substitute-tight-mutant", "text": t, "reference_accepts": j.ref_accepts, "parser_accepts": j.real_accepts}));
+        }
         if let Some(t) = first {
             let j = judge(&t);
             samples.offer(|| json!({"kind": "swap-mutant", "text": t, "reference_accepts": j.ref_accepts, "parser_accepts": j.real_accepts}));
@@ -370,9 +416,9 @@ pub fn run(args: &[String]) -> ! {
              (every shape of every production on every chain of <= {depth} nested productions, repetitions 0..={reps}, siblings minimal) \
              in X's shortest document context{}; from each document all single-token deletions, duplications, adjacent swaps and \
              substitutions ({} substitutes for documents of E(X,{full_depth}), {} for the deeper ones), all deletions of the token range of one \
-             derived production, and all one-gap layout deviations ({} separators at every gap incl. leading/trailing){}; plus the code-point sweep and the repository .wac files. \
+             derived production, and all one-gap layout deviations of the document ({} separators at every gap incl. leading/trailing){}; {}; plus the code-point sweep and the repository .wac files. \
              distinct_nontrivial = number of distinct texts (64-bit SipHash, fixed key) — every text is a derivation or exactly one \
-             token / gap / code point away from one",
+             token / gap / code point away from one, in the one-space or the tight rendering",
             match pairs {
                 Some(k) => format!(", plus all ordered pairs of statements of E(statement,{k})"),
                 None => String::new(),
@@ -380,7 +426,8 @@ pub fn run(args: &[String]) -> ! {
             subs_full.len(),
             subs_small.len(),
             corpus::SEPARATORS.len(),
-            if tier == Tier::Thorough { format!(", all two-gap layout deviations of the documents of E(X,{TWO_GAP_DEPTH})") } else { String::new() }
+            if tier == Tier::Thorough { format!(", all two-gap layout deviations of the documents of E(X,{TWO_GAP_DEPTH})") } else { String::new() },
+            tight_rule(scope)
         )),
     );
     cov.insert("exhaustive".into(), json!(true));
@@ -395,6 +442,9 @@ pub fn run(args: &[String]) -> ! {
     cov.insert("per_production_hits_in_base_documents".into(), json!(production_hits));
     cov.insert("productions_never_derived".into(), json!(never));
     cov.insert("texts_by_kind_total_and_parser_accepted".into(), json!(st.by_kind));
+    cov.insert("tight_layout_texts".into(), json!(st.tight.texts));
+    cov.insert("tight_layout_texts_by_kind_total_and_parser_accepted".into(), json!(tight_by_kind(&st.by_kind)));
+    cov.insert("tight_layout".into(), st.tight.json());
     cov.insert("agree_accept".into(), json!(st.both_accept));
     cov.insert("agree_reject".into(), json!(st.both_reject));
     cov.insert("distinct_outcomes".into(), json!(2 + st.violations.len() + st.unspecified.len()));
@@ -412,6 +462,11 @@ pub fn run(args: &[String]) -> ! {
             "no verdict (counted as unspecified) where LANGUAGE.md is silent: U+17B4/U+17B5, a version directly followed by a version character, a lone CR inside a line comment".into(),
         ],
     )
+}
+
+/// The `<kind>-tight` entries of a by-kind table.
+pub fn tight_by_kind<V: Clone>(by_kind: &BTreeMap<&'static str, V>) -> BTreeMap<&'static str, V> {
+    by_kind.iter().filter(|(k, _)| corpus::TIGHT_KINDS.contains(k)).map(|(k, v)| (*k, v.clone())).collect()
 }
 
 fn lexical_only(n: &str) -> bool {
